@@ -117,6 +117,30 @@ class C05(core.PropBase):
                     for e in envs:
                         ev.update(G.gen_values(rng, e))
                     case["earlier"].append(ev)
+                # ... and with OTHER lists of environment templates: a prefix of this call's list, or this call's list and
+                # one more template that gives a parameter another default.  What was merged for them is not this call's.
+                case["earlier_envs"] = []
+                for _ in case["earlier"]:
+                    how = rng.choice(["same", "prefix", "extra", "extra", "only-extra"])
+                    xt = None
+                    if how in ("extra", "only-extra"):
+                        cands = [q for q in (doc.get("parameterDefinitions") or []) if "default" in q]
+                        alt = G.gen_values(rng, doc)
+                        cands = [q for q in cands if q["name"] in alt and str(alt[q["name"]]) != str(q["default"])] if not any(h in ("extra", "only-extra") for h, _ in case["earlier_envs"]) else []
+                        if cands:
+                            q = rng.choice(cands)
+                            # the job template's own default would win over any environment template's: the default moves
+                            # to an environment template of THIS call, and the extra template of the earlier call has another
+                            d1 = q.pop("default")
+                            envs.append({"specificationVersion": "environment-2023-09", "parameterDefinitions": [{"name": q["name"], "type": q["type"], "default": d1}],
+                                         "environment": {"name": "Dflt%d" % rng.randint(0, 99), "variables": {"A": "b"}}})
+                            xt = {"specificationVersion": "environment-2023-09", "parameterDefinitions": [{"name": q["name"], "type": q["type"], "default": alt[q["name"]]}],
+                                  "environment": {"name": "Xtra%d" % rng.randint(0, 99), "variables": {"A": "b"}}}
+                            if rng.random() < 0.8:
+                                vals.pop(q["name"], None)          # this call takes the parameter's default
+                        else:
+                            how = "prefix"
+                    case["earlier_envs"].append([how, xt])
             yield case
 
     def rule(self, tier):
@@ -147,9 +171,12 @@ class C05(core.PropBase):
             case["_prep"] = prep
             return prep
         try:
-            final = preprocess_job_parameters(job_template=jt, job_parameter_values=dict(case["vals"]), job_template_dir=Path(),
+            # on objects of its own: nothing this question leaves behind is there for the calls under test
+            jt0 = decode_job_template(template=G.deep(case["doc"]))
+            ets0 = [decode_environment_template(template=G.deep(e)) for e in case["envs"]]
+            final = preprocess_job_parameters(job_template=jt0, job_parameter_values=dict(case["vals"]), job_template_dir=Path(),
                                               current_working_dir=Path(), allow_job_template_dir_walk_up=True,
-                                              environment_templates=ets or None)
+                                              environment_templates=ets0 or None)
         except ValueError:
             prep["skip"] = "values-rejected"
             case["_prep"] = prep
@@ -172,6 +199,13 @@ class C05(core.PropBase):
                     return given
             return v.value
         prep["final"] = [[core.cps(k), core.cps(v.type.value), core.cps(final_value(k, v))] for k, v in final.items()]
+        prep["earlier_envs"] = []
+        for how, xt in case.get("earlier_envs", []):
+            try:
+                x = [decode_environment_template(template=G.deep(xt))] if xt else []
+            except DecodeValidationError:
+                x = []
+            prep["earlier_envs"].append(ets if how == "same" else ets[:-1] if how == "prefix" else ets + x if how == "extra" else x)
         prep["pv"] = {k: ParameterValue(type=ParameterValueType(types[k]), value=v) for k, v in case["vals"].items()}
         case["_prep"] = prep
         return prep
@@ -180,9 +214,10 @@ class C05(core.PropBase):
         prep = self.prepare(case)
         if prep["skip"]:
             return ["skip", prep["skip"]]
-        for ev in prep.get("earlier", []):
+        for i, ev in enumerate(prep.get("earlier", [])):
+            ee = prep["earlier_envs"][i] if i < len(prep.get("earlier_envs", [])) else prep["ets"]
             try:
-                create_job(job_template=prep["jt"], job_parameter_values=ev, environment_templates=prep["ets"] or None)
+                create_job(job_template=prep["jt"], job_parameter_values=ev, environment_templates=ee or None)
             except Exception:  # noqa: BLE001
                 pass
         try:
